@@ -42,6 +42,14 @@ def spec(tier):
                       pipe("single", prio=3, at="tb", durs=[3])])
     obs.append(CH(name="prio_interactive_preempted", harness="sched.priority", sym=dict(cpus=I(1, 4), ta=I(1, 3), tb=I(1, 5), da=I(1, 2)),
                   fixed=dict(cfg=cfg, ram=20, ma=1), timeout=1500))
+    # pool RAM that is not a whole number of GB (halves): RAM runs out before CPUs and a fraction of a GB stays free -
+    # a later job must still get it (work conservation) and nothing is preempted while it is free
+    for pools in (1, 2):
+        cfg = dict(algo="priority", pools=pools, multi=True, K=K, ram_scale=0.5,
+                   pipes=[pipe("single", prio=3, at=0, durs=[4]), pipe("single", prio=3, at=0, durs=[4]), pipe("single", prio=3, at=0, durs=[4]),
+                          pipe("single", prio=3, at=0, durs=[4]), pipe("single", prio=2, at="ta", durs=[2]), pipe("single", prio=1, at="tb", durs=[2])])
+        obs.append(CH(name=f"prio_half_gb_P{pools}", harness="sched.priority", sym=dict(ram=I(3, 24 if th else 13), ta=I(1, 2), tb=I(1, 3)),
+                      fixed=dict(cfg=cfg, cpus=10, ma=1, da=1), timeout=1500))
     # the shared pool of priority-pool
     for (p1, p2, p3) in ((2, 1, 2), (1, 2, 1)):
         cfg = dict(algo="priority-pool", pools=2, multi=True, K=K,
@@ -59,7 +67,7 @@ def spec(tier):
         property_id="C12", obligations=obs,
         functions=["priority_scheduler", "init_priority_scheduler", "get_pool_with_max_avail_ram", "priority_pool_scheduler", "WaitingQueueJob",
                    "Executor.run_one_tick", "ResourcePool.run_one_tick", "Container.suspend_container"],
-        bounds={"pools": "1..2" if th else 1, "pipelines": 3, "ticks": K, "cpus_per_pool": "1..12", "ram_gb_per_pool": "2..45"},
+        bounds={"pools": "1..2" if th else 1, "pipelines": 3, "ticks": K, "cpus_per_pool": "1..12", "ram_gb_per_pool": "2..45, and k/2 for k in 3..13"},
         outside=["more than 3 pipelines / 2 pools", "runs longer than K ticks", "tick rates other than 1 (write-out lengths 1..2 ticks are reached through the pool size)"],
         assumptions=A_ASSUME,
         explanation=("CrossHair+z3 lock-step simulation of the real priority scheduler (and of priority-pool's shared pool) with the real executor: pool size, one memory demand and "
